@@ -628,6 +628,9 @@ func shouldRunOnCurrentPlatform(platforms []*ast.Platform) bool {
 		return true
 	}
 	for _, p := range platforms {
+		if p == nil {
+			continue
+		}
 		if (p.OS == "" || p.OS == runtime.GOOS) && (p.Arch == "" || p.Arch == runtime.GOARCH) {
 			return true
 		}
